@@ -393,3 +393,19 @@ Proof.
   unfold unimodal. split; [lra|]. split; intros x y H1 H2 H3;
     unfold Rabs; destruct (Rcase_abs (x - 1 / 3)), (Rcase_abs (y - 1 / 3)); lra.
 Qed.
+
+(** ** Tie to the source.  The left-hand side (module SVGen.C14_CG) is the initialisation and
+    the `while (ii < maxiter) and (num > termination_tol_sq)` loop of scico.solver.cg as
+    regenerated by tools/py2coq.py on every run (x, r, z, p, num, ii at loop exit); the
+    right-hand side is the loop model [CG.cg] the theorems above are about, instantiated with
+    the operations the code uses.  Generic in scalars, vectors, A, the preconditioner M, the
+    inner product snp.sum(u.conj() * v) and the norm. *)
+From SV Require Import C11.Overload C14.Gen.
+From SVGen Require C14_CG.
+
+Theorem C14_gen_cg_loop :
+  forall (K : Type) (NK : Num K) (V : Type) (VV : VecOps K V) (CD : CDot V K) (NO : NormOracle V K)
+         (A M : V -> V) (tol atol : K) (b x0 : V) (maxiter : nat),
+    C14_CG.cg_loop_gen A b x0 tol atol maxiter M = st_tuple (cg_model A M tol atol maxiter b x0).
+Proof. exact (@cg_gen_is_model). Qed.
+Print Assumptions C14_gen_cg_loop.
